@@ -2,6 +2,8 @@ import SJ.Proofs.LexTables
 import SJ.Proofs.LexCorrect
 import SJ.Proofs.LexTopParser
 import SJ.Proofs.LexTopF32
+import SJ.Proofs.LexMathTotal
+import SJ.Proofs.LexMathKara
 /-!
 # C07 — float_roundtrip: decimal → float conversion is correctly rounded
 
@@ -301,5 +303,260 @@ theorem c07_roundtrip (ext : Spec.Program.Ext) (hext : Spec.Program.ExtOK ext) (
 example : RyuText [0x35, 0x65, 0x2d, 0x33, 0x32, 0x34] ∧
     deFloatRoundtrip false (Spec.Canon.partsOf (Spec.Number.splitNumber [0x35, 0x65, 0x2d, 0x33, 0x32, 0x34])) = .f64 1 := by
   refine ⟨⟨by decide, by decide, by decide⟩, by decide +kernel⟩
+
+end SJ.Props.C07
+
+/-! ## (iv′) the limb arithmetic of `lexical/math.rs` under the big-integer slow path
+
+`c07_bhcomp_exact` is stated with `Bigint` as a natural number. The theorems below close that abstraction: the limb-level
+transcription `Model.LexMath` of `math.rs` (64-bit limbs, `Vec<Limb>` little-endian, every wrap written out) refines
+arithmetic on the numbers denoted (`value l = Σ l[i]·2^(64 i)`), and `bhcomp.rs` run on limb vectors
+(`Model.LexBhLimbs`) returns what `Model.Lexical.bhcomp` returns on naturals. -/
+namespace SJ.Props.C07
+open SJ SJ.Gen SJ.Model.Num SJ.Model.Lexical SJ.Model.LexMath SJ.Model.LexBhLimbs SJ.Proofs.LexMath SJ.Proofs.NumInt
+
+/-- **c07_limbs_scalar.** `scalar::add/sub/mul` on limbs: `overflowing_add`, `overflowing_sub` and the widening multiply
+    with carry are addition / subtraction / multiplication with the carry (borrow, high limb) made explicit. -/
+theorem c07_limbs_scalar (x y c : Nat) (hx : x < 2 ^ 64) (hy : y < 2 ^ 64) (hc : c < 2 ^ 64) :
+    ((scalar.add x y).1 + 2 ^ 64 * (if (scalar.add x y).2 then 1 else 0) = x + y ∧ (scalar.add x y).1 < 2 ^ 64) ∧
+    ((scalar.sub x y).1 + y = x + 2 ^ 64 * (if (scalar.sub x y).2 then 1 else 0) ∧ (scalar.sub x y).1 < 2 ^ 64) ∧
+    ((scalar.mul x y c).1 + 2 ^ 64 * (scalar.mul x y c).2 = x * y + c ∧ (scalar.mul x y c).1 < 2 ^ 64 ∧
+      (scalar.mul x y c).2 < 2 ^ 64) :=
+  ⟨scalar_add_spec hx hy, scalar_sub_spec hx hy, scalar_mul_spec hx hy hc⟩
+
+example : scalar.mul (2 ^ 64 - 1) (2 ^ 64 - 1) (2 ^ 64 - 1) = (0, 2 ^ 64 - 1) := by decide +kernel
+
+/-- **c07_limbs_small.** `small::{iadd_impl, iadd, imul, mul, ishl_bits, ishl_limbs, ishl, normalize}` on a vector of
+    limbs: the result denotes `value x + y·2^(64·xstart)`, `value x · y`, `value x · 2^n`, `value x` respectively, is a
+    vector of limbs again, and (for `iadd` on a non-empty vector or with a non-zero addend, `imul` by a non-zero limb,
+    the shifts) normalised if `x` is; `normalize` returns a normalised vector. -/
+theorem c07_limbs_small (x : Limbs) (y n xstart : Nat) (hv : Valid x) (hy : y < 2 ^ 64) :
+    (xstart ≤ x.length → value (small.iaddImpl x y xstart) = value x + y * 2 ^ (64 * xstart) ∧ Valid (small.iaddImpl x y xstart)) ∧
+    (value (small.iadd x y) = value x + y ∧ Valid (small.iadd x y) ∧ (Normal x → x ≠ [] ∨ y ≠ 0 → Normal (small.iadd x y))) ∧
+    (value (small.imul x y) = value x * y ∧ Valid (small.imul x y) ∧ (Normal x → y ≠ 0 → Normal (small.imul x y))) ∧
+    (value (small.mul x y) = value x * y ∧ Valid (small.mul x y)) ∧
+    (n < 64 → value (small.ishlBits x n) = value x * 2 ^ n ∧ Valid (small.ishlBits x n) ∧ (Normal x → Normal (small.ishlBits x n))) ∧
+    (value (small.ishlLimbs x n) = value x * 2 ^ (64 * n) ∧ Valid (small.ishlLimbs x n) ∧ (Normal x → Normal (small.ishlLimbs x n))) ∧
+    (value (small.ishl x n) = value x * 2 ^ n ∧ Valid (small.ishl x n) ∧ (Normal x → Normal (small.ishl x n))) ∧
+    (value (small.normalize x) = value x ∧ Valid (small.normalize x) ∧ Normal (small.normalize x)) :=
+  ⟨fun hs => small_iaddImpl_spec x y xstart hv hy hs,
+   ⟨(small_iadd_spec x y hv hy).1, (small_iadd_spec x y hv hy).2, fun hn h => small_iadd_normal x y hv hy hn h⟩,
+   ⟨(small_imul_spec x y hv hy).1, (small_imul_spec x y hv hy).2, fun hn h0 => small_imul_normal x y hv hy h0 hn⟩,
+   small_mul_spec x y hv hy,
+   fun hn => small_ishlBits_spec x n hn hv,
+   small_ishlLimbs_spec x n hv,
+   small_ishl_spec x n hv,
+   ⟨value_normalize x, valid_normalize hv, normal_normalize x⟩⟩
+
+/-- non-vacuity: a carry rippling through three full limbs, and a shift by `64 + 1` -/
+example : small.iadd [2 ^ 64 - 1, 2 ^ 64 - 1, 2 ^ 64 - 1] 1 = [0, 0, 0, 1] ∧
+    small.ishl [2 ^ 63, 1] 65 = [0, 0, 3] := by decide +kernel
+
+/-- **c07_limbs_isub.** `small::isub_impl` / `large::isub` under the precondition the Rust `debug_assert!`s
+    (subtrahend not larger): they return (no panic), the result denotes the difference and is normalised. -/
+theorem c07_limbs_isub (x y : Limbs) (s k : Nat) (hvx : Valid x) (hvy : Valid y) (hs : s < 2 ^ 64) :
+    (k < x.length → s * 2 ^ (64 * k) ≤ value x →
+      ∃ z, small.isubImpl x s k = some z ∧ value z + s * 2 ^ (64 * k) = value x ∧ Valid z ∧ Normal z) ∧
+    (y.length ≤ x.length → value y ≤ value x →
+      ∃ z, large.isub x y = some z ∧ value z + value y = value x ∧ Valid z ∧ Normal z) :=
+  ⟨fun hk hge => by
+     obtain ⟨z, e, a, b, c, _⟩ := small_isubImpl_spec x s k hvx hs hk hge
+     exact ⟨z, e, a, b, c⟩,
+   fun hl hge => by
+     obtain ⟨z, e, a, b, c, _⟩ := large_isub_spec x y hvx hvy hl hge
+     exact ⟨z, e, a, b, c⟩⟩
+
+example : large.isub [0, 0, 1] [1] = some [2 ^ 64 - 1, 2 ^ 64 - 1] := by decide +kernel
+
+/-- **c07_limbs_compare.** On normalised vectors of limbs `large::compare` (length first, then limbs from the top) is
+    the comparison of the numbers denoted; `less` / `greater_equal` likewise. -/
+theorem c07_limbs_compare (x y : Limbs) (hvx : Valid x) (hvy : Valid y) (hnx : Normal x) (hny : Normal y) :
+    large.compare x y = (if value x > value y then Ordering.gt else if value x < value y then Ordering.lt else Ordering.eq) ∧
+    large.less x y = decide (value x < value y) ∧ large.greaterEqual x y = decide (value y ≤ value x) :=
+  ⟨compare_spec x y hvx hvy hnx hny, less_spec x y hvx hvy hnx hny, greaterEqual_spec x y hvx hvy hnx hny⟩
+
+/-- non-vacuity, and why normalisation is needed: `[5, 0]` denotes 5 but compares greater than `[7]` -/
+example : large.compare [5, 1] [7, 1] = .lt ∧ large.compare [5, 0] [7] = .gt := by decide +kernel
+
+/-- **c07_limbs_add.** `large::iadd_impl(x, y, xstart)` panics exactly when `xstart > x.len()`; otherwise the result
+    denotes `value x + value y · 2^(64·xstart)`, consists of limbs, and is normalised if both operands are.
+    `large::add` never panics. -/
+theorem c07_limbs_add (x y : Limbs) (xstart : Nat) (hvx : Valid x) (hvy : Valid y) :
+    (large.iaddImpl x y xstart = none ↔ x.length < xstart) ∧
+    (∀ z, large.iaddImpl x y xstart = some z →
+      value z = value x + value y * 2 ^ (64 * xstart) ∧ Valid z ∧ (Normal x → Normal y → Normal z)) ∧
+    (value (large.add x y) = value x + value y ∧ Valid (large.add x y) ∧ (Normal x → Normal y → Normal (large.add x y))) :=
+  ⟨large_iaddImpl_none x y xstart,
+   fun z h => by
+     obtain ⟨_, a, b, _, _, c⟩ := large_iaddImpl_some h hvx hvy
+     exact ⟨a, b, c⟩,
+   by
+     obtain ⟨a, b, _, _, c⟩ := large_add_spec x y hvx hvy
+     exact ⟨a, b, c⟩⟩
+
+example : large.add [2 ^ 64 - 1, 2 ^ 64 - 1] [1] = [0, 0, 1] ∧ large.iaddImpl [] [1] 1 = none := by decide +kernel
+
+/-- **c07_limbs_long_mul.** Schoolbook multiplication: `long_mul(x, y)` panics exactly on an empty `y` (`y[0]`);
+    otherwise it returns the normalised product. -/
+theorem c07_limbs_long_mul (x y : Limbs) (hvx : Valid x) (hvy : Valid y) :
+    (y = [] → large.longMul x y = none) ∧
+    (y ≠ [] → ∃ z, large.longMul x y = some z ∧ value z = value x * value y ∧ Valid z ∧ Normal z) :=
+  ⟨fun h => by subst h; rfl, fun h => large_longMul_spec x y h hvx hvy⟩
+
+example : large.longMul [2 ^ 64 - 1, 2 ^ 64 - 1] [2 ^ 64 - 1, 2 ^ 64 - 1] = some [1, 0, 2 ^ 64 - 2, 2 ^ 64 - 1] := by
+  decide +kernel
+
+/-- **c07_limbs_karatsuba.** Karatsuba = schoolbook = product: whenever `karatsuba_mul` (with the cut-off
+    `KARATSUBA_CUTOFF`, the uneven variant, any fuel) returns, the result denotes the product of the numbers denoted,
+    consists of limbs and is normalised — hence equals in value what `long_mul` returns; the same for
+    `karatsuba_mul_fwd` and `large::imul`.
+
+    PARTIAL correctness on purpose: `karatsuba_mul` does **not** always return (`c07_karatsuba_panics`). -/
+theorem c07_limbs_karatsuba (fuel : Nat) (x y z : Limbs) (hvx : Valid x) (hvy : Valid y) :
+    (large.karatsubaMul fuel x y = some z → value z = value x * value y ∧ Valid z ∧ Normal z) ∧
+    (large.karatsubaMul fuel x y = some z → ∀ z', large.longMul x y = some z' → value z = value z') ∧
+    (large.karatsubaMulFwd x y = some z → value z = value x * value y ∧ Valid z ∧ Normal z) ∧
+    (large.imul x y = some z → value z = value x * value y ∧ Valid z ∧ (Normal x → value y ≠ 0 → Normal z)) :=
+  ⟨karatsubaMul_some fuel x y z hvx hvy, fun hk _ hl => karatsuba_eq_long hvx hvy hk hl,
+   karatsubaMulFwd_some hvx hvy, large_imul_some hvx hvy⟩
+
+/-- non-vacuity: 33 × 33 all-ones limbs go through the three-multiplication branch (`m = 16`, carries everywhere) -/
+example : (large.karatsubaMul 34 (List.replicate 33 (2 ^ 64 - 1)) (List.replicate 33 (2 ^ 64 - 1))).map value =
+    some ((2 ^ (64 * 33) - 1) * (2 ^ (64 * 33) - 1)) := by decide +kernel
+
+/-- **c07_karatsuba_panics.** `karatsuba_mul` panics on ordinary operands (both replayed on the crate by the harness,
+    ops `lm kmul`, tag `witness`):
+    * `x.len() = y.len() / 2` with `y.len() ≥ 65` — `xh` is empty, `karatsuba_mul(xh, yh)` takes the uneven branch with
+      `m = 0` and reaches `long_mul(x, [])`, which indexes `y[0]`;
+    * the low half of an operand is zero — `z0` is the empty vector and `iadd_impl(&mut result, &z1, m)` computes
+      `x.len() - xstart = 0 - m`.
+    Neither is reachable from `serde_json`'s API: `imul_pow5` takes the Karatsuba route only for operands of ≥ 26 limbs
+    with exponents ≥ 1024 (`c07_limbs_total`); reachable through the `pub(crate)` trait `Math`:
+    `imul_pow5` of a 37-limb vector by `5^2048`. -/
+theorem c07_karatsuba_panics :
+    large.karatsubaMul 66 (List.replicate 32 1) (List.replicate 65 1) = none ∧
+    large.karatsubaMul 34 (List.replicate 17 0 ++ List.replicate 16 1) (List.replicate 33 1) = none ∧
+    Math.imulPow5 (List.replicate 37 1) 2048 = none := by
+  refine ⟨?_, ?_, ?_⟩ <;> rw [← Option.isNone_iff_eq_none] <;> decide +kernel
+
+/-- **c07_limbs_hi64.** On a normalised vector of limbs `Bigint::hi64` (`hi64_1/2/3`, `u64_to_hi64_1/2`, `nonzero`)
+    does not panic and returns exactly what `Model.Lexical.hi64` — the abstraction `c07_bhcomp_exact` is stated over —
+    returns on the number denoted: the 64 most significant bits, left-aligned, and the sticky flag;
+    `Bigint::bit_length` is `Model.Lexical.bitLength`. -/
+theorem c07_limbs_hi64 (x : Limbs) (hv : Valid x) (hn : Normal x) :
+    Math.hi64 x = some (Model.Lexical.hi64 (value x)) ∧ Math.bitLength x = Model.Lexical.bitLength (value x) :=
+  ⟨hi64_refines x hv hn, bitLength_refines x hv hn⟩
+
+/-- non-vacuity: three limbs, 61 leading zeros, a sticky bit only in the lowest limb; and the panic on a zero top limb -/
+example : Math.hi64 [1, 0, 5] = some (5 * 2 ^ 61, true) ∧ Math.hi64 [0, 0, 5] = some (5 * 2 ^ 61, false) ∧
+    Math.bitLength [1, 0, 5] = 131 ∧ Math.hi64 [5, 0] = none := by decide +kernel
+
+/-- **c07_limbs_pow.** `imul_pow5` (either route: iterated `POW5_64` limbs, or the binary expansion of `n` over
+    `large_powers64::POW5[i] = 5^(2^i)` through `large::imul`), `imul_pow2`, `imul_pow10`, `from_u64`: whenever they
+    return, the result denotes `value x · 5^n` / `· 2^n` / `· 10^n`, consists of limbs, stays normalised. On the
+    small-powers route (`x.len() + POW5[⌊log2 n⌋].len() < 2·KARATSUBA_CUTOFF`, `n < 2^14`) `imul_pow5` always returns. -/
+theorem c07_limbs_pow (x : Limbs) (n : Nat) (hv : Valid x) :
+    (∀ z, Math.imulPow5 x n = some z → value z = value x * 5 ^ n ∧ Valid z ∧ (Normal x → Normal z)) ∧
+    (∀ z, Math.imulPow10 x n = some z → value z = value x * 10 ^ n ∧ Valid z ∧ (Normal x → Normal z)) ∧
+    (value (Math.imulPow2 x n) = value x * 2 ^ n ∧ Valid (Math.imulPow2 x n) ∧ (Normal x → Normal (Math.imulPow2 x n))) ∧
+    (n < 2 ^ 14 → (∀ lp, largePow5Limbs[Nat.log2 n]? = some lp → x.length + lp.length < 2 * karatsubaCutoff) →
+      ∃ z, Math.imulPow5 x n = some z) ∧
+    (n < 2 ^ 64 → value (Math.fromU64 n) = n ∧ Valid (Math.fromU64 n) ∧ Normal (Math.fromU64 n)) :=
+  ⟨fun _ h => small_imulPow5_some hv h, fun _ h => math_imulPow10_some hv h, math_imulPow2_spec x n hv,
+   fun hn hp => small_imulPow5_total hn hp,
+   fun hn => ⟨(math_fromU64_spec n hn).1, (math_fromU64_spec n hn).2.1, (math_fromU64_spec n hn).2.2.1⟩⟩
+
+/-- non-vacuity: `3 · 5^30` by the small route (one full step of `5^27`, then `5^3`) -/
+example : (Math.imulPow5 [3] 30).map value = some (3 * 5 ^ 30) := by decide +kernel
+
+/-- **c07_limbs_refine_nat.** Every big-integer operation sequence of `bhcomp.rs`, run on limb vectors through the
+    trait `Math` (`Model.LexBhLimbs`), computes what `Model.Lexical` computes with `Bigint` as a natural number:
+
+    * `parse_mantissa` (`imul_small(small_powers[counter])` / `iadd_small(value)` per chunk of 18 digits, the final
+      `imul_small(10)` and sticky `iadd_small(1)`): the vector denotes `Model.Lexical.parseMantissa`, consists of limbs,
+      and is normalised unless it denotes zero;
+    * `large_atof` (`imul_pow10`, `hi64`, `bit_length`) and `small_atof` (`from_u64`, `imul_pow5`, `imul_pow2` on either
+      side, `compare`): on a normalised mantissa, whenever they return they return the float of the `Nat`-level model;
+    * `bhcomp`: for digit strings whose big-integer mantissa is not zero, any `b`, any `i32` exponent, `f64` and `f32`:
+      whenever the limb-level `bhcomp` returns, it returns `Model.Lexical.bhcomp` — the function
+      `c07_bhcomp_exact` proves correctly rounded.
+
+    "Whenever it returns": the limb code can panic (`imul_pow5` beyond `5^(2^14 - 1)`, Karatsuba); `c07_limbs_total`
+    shows it does not inside the exponent range `bhcomp` is called with. -/
+theorem c07_limbs_refine_nat (single : Bool) (b : Nat) (integer fraction : Bytes) (exponent : Int)
+    (hdi : IsDigits integer) (hdf : IsDigits fraction) :
+    (value (parseMantissaL (fc single) integer fraction) = parseMantissa (fc single) integer fraction ∧
+      Valid (parseMantissaL (fc single) integer fraction) ∧
+      (parseMantissa (fc single) integer fraction ≠ 0 → Normal (parseMantissaL (fc single) integer fraction))) ∧
+    (∀ (m : Limbs) (e : Int) (r : Nat), Valid m → Normal m → 0 ≤ e → e < 2 ^ 31 →
+      largeAtofL (fc single) m e = some r → r = largeAtof (fc single) (value m) e) ∧
+    (∀ (m : Limbs) (e : Int) (r : Nat), Valid m → Normal m → e < 0 → -(2 ^ 31 : Int) ≤ e →
+      smallAtofL (fc single) m e b = some r → r = smallAtof (fc single) (value m) e b) ∧
+    (bhMantissa (fc single) integer fraction ≠ 0 → ∀ r, bhcompL (fc single) b integer fraction exponent = some r →
+      r = bhcomp (fc single) b integer fraction exponent) :=
+  ⟨parseMantissaL_refines (fc single) integer fraction hdi hdf,
+   fun m e r hv hn h0 h1 h => largeAtofL_refines (fc single) m e hv hn h0 (by omega) r h,
+   fun m e r hv hn h0 h1 h => by
+     have ⟨x1, x2⟩ := bhExtended_exp_bounds single b
+     exact smallAtofL_refines (fc single) m e b hv hn h0 (by omega) (by omega) (by omega) r h,
+   fun hm r h => bhcompL_refines single b integer fraction exponent hdi hdf hm r h⟩
+
+/-- non-vacuity: `9007199254740993` (= 2^53 + 1, an exact midpoint) with `b = 2^53`: `large_atof` on the one-limb
+    mantissa rounds to even; and the same digits as `0.9007199254740993e16` through `small_atof`'s comparison -/
+example : bhcompL f64Consts 0x4340000000000000 [0x39,0x30,0x30,0x37,0x31,0x39,0x39,0x32,0x35,0x34,0x37,0x34,0x30,0x39,0x39,0x33] [] 0
+      = some 0x4340000000000000 ∧
+    bhcompL f64Consts 0x4340000000000000 [] [0x39,0x30,0x30,0x37,0x31,0x39,0x39,0x32,0x35,0x34,0x37,0x34,0x30,0x39,0x39,0x33,0x30,0x31] 16
+      = some 0x4340000000000001 := by decide +kernel
+
+/-- **c07_limbs_total.** Inside the exponent range `bhcomp` is called with, the limb code does not panic: for digit
+    strings with a non-zero mantissa and `-2048 < scaled_exponent < 1024` (`bhScaled` = `bhcomp`'s `sci_exp + 1 - count`;
+    above the range the value is `≥ 10^1024`, below it `< 10^-1280`, both far outside every float and decided before
+    `bhcomp` is reached) the limb-level `bhcomp` returns — the mantissa has at most 40 limbs, `imul_pow5` stays on the
+    small-powers route (never Karatsuba), `hi64` sees a normalised vector. With `c07_limbs_refine_nat`: it returns
+    `Model.Lexical.bhcomp`. -/
+theorem c07_limbs_total (single : Bool) (b : Nat) (integer fraction : Bytes) (exponent : Int) (hdi : IsDigits integer)
+    (hdf : IsDigits fraction) (hm : bhMantissa (fc single) integer fraction ≠ 0)
+    (h1 : -2048 < bhScaled (fc single) integer fraction exponent) (h2 : bhScaled (fc single) integer fraction exponent < 1024) :
+    bhcompL (fc single) b integer fraction exponent = some (bhcomp (fc single) b integer fraction exponent) := by
+  obtain ⟨r, hr⟩ := bhcompL_total single b integer fraction exponent hdi hdf hm h1 h2
+  rw [hr, bhcompL_refines single b integer fraction exponent hdi hdf hm r hr]
+
+/-- non-vacuity: the hypotheses hold for `9007199254740993` / exponent 0 (`scaled_exponent = 0`) -/
+example : bhMantissa f64Consts [0x39,0x30,0x30,0x37,0x31,0x39,0x39,0x32,0x35,0x34,0x37,0x34,0x30,0x39,0x39,0x33] [] = 9007199254740993 ∧
+    bhScaled f64Consts [0x39,0x30,0x30,0x37,0x31,0x39,0x39,0x32,0x35,0x34,0x37,0x34,0x30,0x39,0x39,0x33] [] 0 = 0 := by
+  decide +kernel
+
+open SJ.Spec.Ieee SJ.Proofs.LexSplit SJ.Proofs.LexRound SJ.Proofs.LexBh SJ.Proofs.LexFast SJ.Proofs.LexCorrect in
+/-- **c07_bhcomp_limbs_exact.** `c07_bhcomp_exact` without the `Bigint = Nat` abstraction: under its hypotheses, and
+    with `scaled_exponent` in the range where `bhcomp` is actually reached, `bhcomp.rs` *run on limb vectors through
+    `math.rs`* returns (no panic) the correctly rounded value. (`hz` — the dropped digits are not all zero — is a leftover of
+    the limb development: `c07_bhcomp_exact` no longer needs it; here it is only used for "the parsed mantissa is non-zero".) -/
+theorem c07_bhcomp_limbs_exact (single : Bool) (integer fraction : Bytes) (hdi : IsDigits integer) (hdf : IsDigits fraction)
+    (hhead : ∀ d r, integer = d :: r → d ≠ 0x30) (hpos : 0 < natOfDigits (integer ++ fraction)) (exponent : Int)
+    (hexp1 : -(2 ^ 30 : Int) < exponent) (hexp2 : exponent < 2 ^ 30)
+    (hlen : integer.length + fraction.length < 2 ^ 30) (b : Nat) (hb : b < (fmtOf single).infBits)
+    (hz : (fc single).maxDigits - 1 < (sigDigits integer fraction).length →
+      0 < natOfDigits ((sigDigits integer fraction).drop ((fc single).maxDigits - 1)))
+    (hnear : NearBelow (fmtOf single) b (dNum (fmtOf single) (natOfDigits (integer ++ fraction)) (exponent - fraction.length))
+      (dDen (exponent - fraction.length)))
+    (h1 : -2048 < bhScaled (fc single) integer fraction exponent) (h2 : bhScaled (fc single) integer fraction exponent < 1024) :
+    bhcompL (fc single) b integer fraction exponent =
+      some (roundDec (fmtOf single) (natOfDigits (integer ++ fraction)) (exponent - fraction.length)) := by
+  have hmax : 2 ≤ (fc single).maxDigits := by cases single <;> simp [fc, f32Consts, f64Consts]
+  rw [c07_limbs_total single b integer fraction exponent hdi hdf
+      (bhMantissa_ne_zero (fc single) hmax integer fraction hpos hz) h1 h2,
+    c07_bhcomp_exact single integer fraction hdi hdf hhead hpos exponent hexp1 hexp2 hlen b hb hnear]
+
+/-- non-vacuity: the conclusion on `9007199254740993` (a tie between `2^53` and `2^53 + 2`), evaluated in the kernel -/
+example : bhcompL (fc false) 0x4340000000000000 [0x39,0x30,0x30,0x37,0x31,0x39,0x39,0x32,0x35,0x34,0x37,0x34,0x30,0x39,0x39,0x33] [] 0 =
+    some (SJ.Proofs.LexBh.roundDec (SJ.Proofs.LexFast.fmtOf false) 9007199254740993 0) := by decide +kernel
+
+/-- **c07_karatsuba_fuel.** The fuel argument of the model's `karatsubaMul` is immaterial above `y.len()` (the Rust
+    recursion strictly decreases `y.len()` beyond the cut-off): a `none` at fuel `y.len() + 1` is a panic of the Rust. -/
+theorem c07_karatsuba_fuel (x y : Limbs) (f : Nat) (h : y.length < f) :
+    large.karatsubaMul f x y = large.karatsubaMul (y.length + 1) x y := karatsubaMul_fuel_enough x y f h
+
+example : large.karatsubaMul 1000 (List.replicate 32 1) (List.replicate 65 1) = none := by
+  rw [c07_karatsuba_fuel _ _ 1000 (by decide), ← Option.isNone_iff_eq_none]; decide +kernel
 
 end SJ.Props.C07
